@@ -195,6 +195,9 @@ func c19Conc(name string, twoBackends bool, order []string, pb int) vx.Scenario 
 		if o == "c1" || o == "c2" {
 			answered++
 		}
+		if o == "both" {
+			answered += 2
+		}
 	}
 	return vx.Scenario{Name: "c19/conc/" + name, PB: pb, Delay: true, NoPost: true, Single: answered < 2 || pb == 0, MaxSteps: 400000, MaxTime: 5 * time.Minute,
 		Setup: func(s *vs.Sched) func(*vs.Result) vx.Exec {
@@ -265,6 +268,23 @@ func c19Conc(name string, twoBackends bool, order []string, pb int) vx.Scenario 
 								}
 							}
 						}
+					case "both":
+						// the two responses are posted at the same time (two agents, or two workers of one agent)
+						doneN := 0
+						for _, c := range cl {
+							c := c
+							c.posted = payload(byte(7+int(c.name[1])), 3000)
+							vs.Go(func() {
+								b := backendOf[c.name]
+								p := call(agent(owner[b]), "POST", "/agent/response", agentHdr(b, idOf[c.name]), wireResponse(200, c.posted, c.name))
+								vs.Touch(unsafe.Pointer(&started))
+								if p.status != 200 {
+									viol = append(viol, fmt.Sprintf("RESPOND: response for %s answered %d", c.name, p.status))
+								}
+								doneN++
+							})
+						}
+						vs.Wait("both responses posted", unsafe.Pointer(&started), func() bool { return doneN == 2 })
 					case "wrong":
 						// the other backend's agent tries to answer c1
 						wrongAgent = call(agent(a2), "POST", "/agent/response", agentHdr("b2", idOf["c1"]), wireResponse(200, []byte("forged"), "forged"))
@@ -707,9 +727,9 @@ func c19Scenarios(th bool) []vx.Scenario {
 		pb = 2
 	}
 	for _, two := range []bool{false, true} {
-		for _, ord := range [][]string{{"c1", "c2"}, {"c2", "c1"}, {"c2"}, {"wrong", "c1"}, {}} {
+		for _, ord := range [][]string{{"c1", "c2"}, {"c2", "c1"}, {"both"}, {"c2"}, {"wrong", "c1"}, {}} {
 			p := pb
-			if two && !th {
+			if two && !th && !(len(ord) == 1 && ord[0] == "both") {
 				p = 0 // two backends: the default schedule in the quick tier, schedules in the thorough one
 			}
 			out = append(out, c19Conc(fmt.Sprintf("two=%v/%v", two, ord), two, ord, p))
